@@ -578,7 +578,14 @@ impl Database {
             };
             match i32::from_str_radix(&current_value, 10) {
                 Ok(current) => {
-                    let next = (current + inc).to_string();
+                    let next = match current.checked_add(inc) {
+                        Some(next) => next.to_string(),
+                        None => {
+                            return Response::Error {
+                                msg: "Increment would overflow the key".to_string(),
+                            }
+                        }
+                    };
                     // Keep the version growing and the disk addresses/state of an existing key
                     let new_value = match db.get(&key.to_string()) {
                         Some(old_value) => Value {
